@@ -21,9 +21,9 @@ func (*C16) Rule() string {
 }
 
 func (*C16) Plan(tier string) orch.Plan {
-	n := 300
+	n := 4000
 	if tier == "thorough" {
-		n = 40000
+		n = 400000
 	}
 	return orch.Plan{Episodes: n, Batch: 1}
 }
